@@ -3,9 +3,21 @@
    types; N, positive, nat, comparison stay the inductive types Coq defines. No
    Extract Constant / Extract Inductive directives of our own. *)
 From Coq Require Extraction ExtrOcamlBasic.
-From Grenad.model Require Import Base Varint.
+From Grenad.gen Require Import Consts.
+From Grenad.model Require Import Base Varint Block Trailer Writer Reader Spec Iter Format Merger Sorter.
 Extraction Language OCaml.
 Extraction "model.ml"
-  Base.len Base.lex_compare Base.bytes_ltb Base.bytes_leb Base.bytes_eqb
+  Base.len Base.lex_compare Base.bytes_ltb Base.bytes_leb Base.bytes_eqb Base.starts_with
   Base.le_bytes Base.be_bytes Base.le_decode Base.be_decode
-  Varint.varint_encode32 Varint.varint_decode32 Varint.varint_length_packed.
+  Varint.varint_encode32 Varint.varint_decode32 Varint.varint_length_packed
+  Block.bw_new Block.bw_insert Block.bw_finish Block.bw_size Block.parse_block Block.entry_at Block.bc_move
+  Block.bc_current Block.bc_new Block.frame
+  Trailer.open_meta Trailer.trailer_bytes
+  Writer.w_run Writer.clamp_block_size Writer.compress_none
+  Reader.cstep Reader.cs_fresh Reader.load_block Reader.decompress_none
+  Spec.aspec Spec.range_spec Spec.prefix_spec Spec.sorted_strictb Spec.ceil_idx Spec.floor_idx Spec.find_idx
+  Iter.range_next Iter.rev_range_next Iter.prefix_next Iter.rev_prefix_next Iter.collect Iter.iter_new Iter.advance_key
+  Format.decode_file Format.block_entries Format.block_size_of Format.size_without_last Format.block_sorted Format.offsets_ok
+  Merger.merge_run Merger.mf_concat
+  Sorter.s_new Sorter.s_insert Sorter.s_finish Sorter.sorter_run Sorter.sorter_spec Sorter.clamp_threshold
+  Sorter.clamp_chunks Sorter.default_capacity Sorter.round_up.
